@@ -18,6 +18,10 @@ sys.path.insert(0, repo)
 results = []
 for m in mods:
     try:
+        if m.startswith("star:"):
+            exec("from %s import *" % m[5:], {})
+            results.append([m, "ok"])
+            continue
         name = m[5:] if m.startswith("from:") else m
         if m.startswith("from:") and "." in name:
             pkg, _, leaf = name.rpartition(".")
@@ -37,6 +41,14 @@ for m in mods:
     except BaseException as e:  # noqa: BLE001
         results.append([m, "%s: %s" % (type(e).__name__, str(e)[:300])])
 
+# the third client spelling: `from chartparse.x import *` must work for every module that is loaded by now
+star_failures = []
+for mn in sorted(k for k, v in sys.modules.items() if k.startswith("chartparse.") and v is not None):
+    try:
+        exec("from %s import *" % mn, {})
+    except BaseException as e:  # noqa: BLE001
+        star_failures.append([mn, "%s: %s" % (type(e).__name__, str(e)[:300])])
+
 IMMUTABLE = (int, str, float, bool, type(None), tuple, frozenset, bytes, complex)
 loaded = sorted(k for k, v in sys.modules.items() if (k == "chartparse" or k.startswith("chartparse.")) and v is not None)
 table, by_id = {}, {}
@@ -52,4 +64,4 @@ for mn in loaded:
     table[mn] = ns
 aliases = sorted(sorted(g) for g in by_id.values() if len(g) > 1)
 blob = json.dumps([loaded, table, aliases], sort_keys=True)
-print(json.dumps(dict(results=results, loaded=loaded, fingerprint=hashlib.sha1(blob.encode()).hexdigest()[:16], table=table, aliases=aliases)))
+print(json.dumps(dict(star_failures=star_failures, results=results, loaded=loaded, fingerprint=hashlib.sha1(blob.encode()).hexdigest()[:16], table=table, aliases=aliases)))
